@@ -155,7 +155,77 @@ def r_plumbing():
     lib.write_gen("PlumbingTables", "\n".join(out))
 
 
+def version_tables():
+    import importlib
+    import pkgutil
+    lib.ensure_repo_on_path()
+    import datamodel_code_generator as d
+    from datamodel_code_generator.format import PythonVersion
+    from datamodel_code_generator.imports import Import
+    from datamodel_code_generator.model import get_data_model_types
+    from datamodel_code_generator.reference import Reference
+    from datamodel_code_generator.types import DataType
+
+    rows = []
+    for v in PythonVersion:
+        major, minor = v.value.split(".")
+        if major != "3":
+            raise ValueError(v.value)
+        rows.append((v.value, int(minor), bool(v.has_union_operator), bool(v.has_typed_dict_non_required), bool(v.has_kw_only_dataclass)))
+    consts = {}
+    for mi in pkgutil.walk_packages(d.__path__, d.__name__ + "."):
+        mod = importlib.import_module(mi.name)
+        for k, val in vars(mod).items():
+            if isinstance(val, Import) and val.from_:
+                consts.setdefault((val.from_, val.import_), f"{mi.name}.{k}")
+    sel = []
+    for v in PythonVersion:
+        minor = int(v.value.split(".")[1])
+        for kind in d.DataModelType:
+            ms = get_data_model_types(kind, v)
+            imps = set()
+            for cls in (ms.data_model, ms.root_model):
+                for i in getattr(cls, "DEFAULT_IMPORTS", ()):
+                    if i.from_:
+                        imps.add((i.from_, i.import_))
+            # what a non-required member of a model of this kind imports
+            ref = Reference(path="p", name="M", original_name="M")
+            f = ms.field_model(name="a", data_type=DataType(type="int"), required=False)
+            try:
+                model = ms.data_model(reference=ref, fields=[f])
+                f.parent = model
+                for i in f.imports:
+                    if i.from_:
+                        imps.add((i.from_, i.import_))
+                for i in model.imports:
+                    if i.from_:
+                        imps.add((i.from_, i.import_))
+            except Exception:  # noqa: BLE001
+                raise
+            sel.append((minor, kind.value, sorted(imps)))
+    # GraphQL alias models are the same for every target
+    from datamodel_code_generator.model.union import DataTypeUnion
+    from datamodel_code_generator.model.scalar import DataTypeScalar
+    alias_imps = sorted({(i.from_, i.import_) for c in (DataTypeUnion, DataTypeScalar) for i in c.DEFAULT_IMPORTS if i.from_})
+    return {"rows": rows, "consts": sorted(consts), "sel": sel, "alias": alias_imps}
+
+
+def r_version():
+    t = version_tables()
+    S = coq_string
+    pair = lambda p: f"({S(p[0])}, {S(p[1])})"
+    out = ["(* GENERATED on every run by /verif/harness/reflect.py from format.py, imports.py, model/*. *)\nFrom Coq Require Import List String Bool.\nImport ListNotations.\nOpen Scope string_scope.\n"]
+    out.append("Definition version_rows : list (string * nat * bool * bool * bool) := [" + "; ".join(
+        f"({S(v)}, {m}, {lib.coq_bool(u)}, {lib.coq_bool(n)}, {lib.coq_bool(k)})" for v, m, u, n, k in t["rows"]) + "].\n")
+    out.append("Definition import_constants : list (string * string) := [" + "; ".join(pair(p) for p in t["consts"]) + "].\n")
+    out.append("Definition selection : list (nat * string * list (string * string)) := [" + "; ".join(
+        f"({m}, {S(k)}, [{'; '.join(pair(p) for p in imps)}])" for m, k, imps in t["sel"]) + "].\n")
+    out.append("Definition alias_model_imports : list (string * string) := [" + "; ".join(pair(p) for p in t["alias"]) + "].\n")
+    lib.write_gen("VersionTables", "\n".join(out))
+
+
 REFLECTORS = {
+    "VersionTables": r_version,
     "PlumbingTables": r_plumbing,
     "EscapeTables": r_escape,
     "UnicodeTables": r_unicode,
